@@ -19,7 +19,11 @@ RULE = (
     'independent denotation; `or` lists (exhaustive over reduced alphabets, '
     'Hypothesis-generated over the full set) must equal the union of pairs; '
     'generated scripts reuse literal/macro patterns in loops and check every '
-    'later table. Non-trivial = a pattern with a wildcard digit next to a '
+    'later table; the production Clock.wait_until is run on a wall clock that '
+    'advances by a generated amount at every look (none, 1 ms, a third of a '
+    'tick) from start times near the turn of a minute or hour and may only '
+    'return at an instant some listed pattern denotes, and must not wait on '
+    'past one. Non-trivial = a pattern with a wildcard digit next to a '
     'fixed digit, or an `or` list whose union differs from the product of the '
     'united hour and minute sets, or a script that reuses a pattern after it '
     'appeared in an `or` list; distinct by pattern text / script text.')
@@ -64,6 +68,8 @@ def plan(tier, seed_value):
         specs.append({'kind': 'random_alts', 'seed': seed_value * 1000 + k,
                       'examples': per})
         specs.append({'kind': 'orders', 'seed': seed_value * 1000 + 100 + k,
+                      'examples': per})
+        specs.append({'kind': 'real_clock', 'seed': seed_value * 1000 + 300 + k,
                       'examples': per})
         if tier == 'quick':
             specs.append({'kind': 'long_strings',
@@ -300,6 +306,112 @@ def check_order(acc, case):
             return
 
 
+# ---- the production Clock's time-of-day wait on a wall clock that moves ------------
+@st.composite
+def clock_cases(draw):
+    hour = draw(st.integers(0, 23))
+    minute = draw(st.sampled_from([58, 59, 59, 0, 29, draw(st.integers(0, 59))]))
+    second = draw(st.sampled_from([0, 30, 50, 59, 59.5]))
+    tick = draw(st.sampled_from([0.25, 1.0, 5.0, 20.0]))
+    read_cost = draw(st.sampled_from([0, 0, 0.001, tick / 3, tick / 3]))
+    patterns = draw(st.lists(_pattern_strategy(), min_size=0, max_size=2))
+    # a time shortly ahead, and the same minute in the hour that is ending
+    ahead = (hour * 60 + minute + draw(st.integers(1, 4))) % 1440
+    patterns.append('{}:{:02d}'.format(ahead // 60, ahead % 60))
+    if draw(st.booleans()):
+        patterns.append('{}:{:02d}'.format(hour, ahead % 60))
+    if draw(st.booleans()):
+        patterns.append('{}:00'.format(hour))
+    return {'start': [hour, minute, second], 'tick': tick,
+            'read_cost': read_cost, 'patterns': draw(st.permutations(patterns))}
+
+
+def check_clock(acc, case):
+    """Clock.wait_until may only return at an instant the pattern denotes,
+    and not sleep through one, whatever time passes between two looks at the
+    wall clock."""
+    import datetime as real_datetime
+    import bardolph.lib.clock as clock_module
+    from bardolph.lib.time_pattern import TimePattern
+    _get_world()
+    pattern = None
+    table = set()
+    for text in case['patterns']:
+        one = TimePattern.from_string(text)
+        if one is None:
+            raise env.HarnessError('pattern {} not accepted'.format(text))
+        if pattern is None:
+            pattern = one
+        else:
+            pattern.union(one)      # in place, as the VM does for `or`
+        table |= set(timepat.denotation(text))
+    hour, minute, second = case['start']
+    # integer microseconds since midnight of day 0: no float drift
+    tick_us = int(round(case['tick'] * 1000000))
+    cost_us = int(case['read_cost'] * 1000000)
+    state = {'t': int(round((hour * 3600 + minute * 60 + second) * 1000000)),
+             'polls': 0}
+    reads = []          # (poll number, microseconds)
+
+    class WallClock:
+        @staticmethod
+        def now():
+            t = state['t']
+            reads.append((state['polls'], t))
+            state['t'] += cost_us
+            return real_datetime.datetime(2026, 1, 5) + \
+                real_datetime.timedelta(microseconds=t)
+
+    def wait(self):
+        state['polls'] += 1
+        state['t'] += tick_us
+        return state['polls'] < 4000
+    clock = clock_module.Clock()
+    saved = clock_module.datetime, clock_module.Clock.wait
+    clock_module.datetime = WallClock
+    clock_module.Clock.wait = wait
+    try:
+        clock.wait_until(pattern)
+    finally:
+        clock_module.datetime, clock_module.Clock.wait = saved
+
+    def hm(t):
+        return (t // 3600000000) % 24, (t // 60000000) % 60
+
+    def denoted(t):
+        return hm(t) in table
+    straddle = False
+    payload = {'kind': 'clock', 'case': case}
+    text = ' or '.join(case['patterns'])
+    if state['polls'] >= 4000:
+        acc.case(key=repr(case), labels=['real-clock', 'not-reached'])
+        return
+    last = [t for poll, t in reads if poll == state['polls']]
+    earlier = [t for poll, t in reads if poll < state['polls']]
+    straddle = len({hm(t) for t in last}) > 1
+    acc.case(key=repr(case), nontrivial=state['polls'] > 0,
+             labels=['real-clock'] + (['minute-changes-during-a-look']
+                                      if straddle else []),
+             sample={'patterns': text, 'start': case['start'],
+                     'tick': case['tick'], 'read_cost': case['read_cost'],
+                     'polls': state['polls']}
+             if straddle and len(acc.samples) < 4 else None)
+
+    def clock_text(t):
+        return '{}:{:02d}:{:06.3f}'.format(*hm(t), (t % 60000000) / 1e6)
+    if not any(denoted(t) for t in last):
+        acc.fail('wait-ended-at-undenoted-time',
+                 'time at {} started {}:{:02d}:{} ended when the wall clock '
+                 'read {} - no listed pattern denotes that'.format(
+                     text, hour, minute, second,
+                     ' / '.join(clock_text(t) for t in last)), payload)
+    elif case['read_cost'] == 0 and any(denoted(t) for t in earlier):
+        first = next(t for t in earlier if denoted(t))
+        acc.fail('wait-slept-through-a-denoted-time',
+                 'time at {} looked at the clock at {} and went on waiting'
+                 .format(text, clock_text(first)), payload)
+
+
 def _nth_string(index, max_len):
     base = len(ALPHABET)
     for length in range(max_len + 1):
@@ -356,6 +468,13 @@ def run_shard(spec):
         def run(case):
             check_order(acc, case)
         run()
+    elif kind == 'real_clock':
+        @seed(spec['seed'])
+        @_settings(spec['examples'])
+        @given(clock_cases())
+        def run(case):
+            check_clock(acc, case)
+        run()
     elif kind == 'long_strings':
         @seed(spec['seed'])
         @_settings(spec['examples'])
@@ -385,6 +504,8 @@ def replay(case):
         check_table(acc, case['pattern'])
     elif kind == 'alts':
         check_alts(acc, tuple(case['patterns']), 'replay')
+    elif kind == 'clock':
+        check_clock(acc, case['case'])
     elif kind == 'order':
         check_order(acc, {
             'literals': case['case']['literals'],
